@@ -30,7 +30,7 @@ HM = r"(?:[01][0-9]|2[0-3]):[0-5][0-9]"
 SEC = r":[0-5][0-9](?:\.[0-9]{1,12})?"
 T_PART = r"T(?:[0-9]+H(?:[0-9]+M)?(?:[0-9]+(?:\.[0-9]+)?S)?|[0-9]+M(?:[0-9]+(?:\.[0-9]+)?S)?|[0-9]+(?:\.[0-9]+)?S)"
 DUR_BODY = (r"(?:[0-9]+Y(?:[0-9]+M)?(?:[0-9]+D)?(?:" + T_PART + r")?|[0-9]+M(?:[0-9]+D)?(?:" + T_PART + r")?|[0-9]+D(?:" + T_PART + r")?|" + T_PART + r")")
-SEGMENT = r"[A-Za-z_][A-Za-z0-9_]*"
+SEGMENT = r"[^\W\d]\w*"
 SPEC: Dict[str, str] = {
     "Integer": r"[+-]?[0-9]{1,19}",
     "Float": r"[+-]?[0-9]+(?:\.[0-9]+(?:e[+-]?[0-9]+)?|e[+-]?[0-9]+)",
